@@ -397,6 +397,7 @@ register("C13", streams=[Q("parent", apis=["find_matches"], src=None, share=2), 
          rule="paths with parent steps in any position, interleaved with descents, filters and recursion, from a document or a Match; locations incl. the '<-name' trail compared")
 register("C17", streams=[Q("all", apis=["find_matches", "find", "get_match"], src=None)],
          observables=["results_exc", "leaf_events", "stamps", "tie:trace"], oracles=[oracles.untraced_oracle, oracles.long_scan_oracle, oracles.event_chain_oracle, oracles.deep_oracle],
+         extra=[families.MutateFamily("set", 500, 15000, "writers given a trace callable on every other call: outcome and object graph as without")],
          rule="full trace event stream (last_match, vertex index, next_match, predicate_match) compared with the machine model; unstamped events compared with the specification stream; traced vs untraced runs compared on the python side")
 register("C20", generated=["Budget"], streams=[Q("all", apis=["find_matches"], src=None, nexts="drain")],
          observables=["attempts_bound", "results_exc", "tie:attempts"], oracles=[oracles.work_bound_oracle, oracles.cyclic_oracle, oracles.deep_oracle],
